@@ -795,13 +795,14 @@ class DatasetProcessor:
             logger.info("Transcript model file " + gff_printer.model_fname)
             if self.args.genedb:
                 merge_files(extended_gff_printer.model_fname, sample.prefix, chr_ids,
-                            extended_gff_printer.out_gff, copy_header=False)
+                            extended_gff_printer.out_gff, copy_header=False, header_lines=0)
                 logger.info("Extended annotation is saved to " + extended_gff_printer.model_fname)
             transcript_stat_counter.print_start("Transcript model statistics")
 
         self.merge_assignments(sample, aggregator, chr_ids)
         if self.args.sqanti_output:
-            merge_files(sample.out_t2t_tsv, sample.prefix, chr_ids, open(sample.out_t2t_tsv, "w"), copy_header=False)
+            merge_files(sample.out_t2t_tsv, sample.prefix, chr_ids, open(sample.out_t2t_tsv, "w"), copy_header=False,
+                        header_lines=aggregator.t2t_sqanti_printer.header_lines)
 
         aggregator.finalize_aggregators(sample)
 
@@ -826,9 +827,11 @@ class DatasetProcessor:
     def merge_assignments(self, sample, aggregator, chr_ids):
         if self.args.genedb:
             merge_files(sample.out_assigned_tsv, sample.prefix, chr_ids,
-                        aggregator.basic_printer.output_file, copy_header=False)
+                        aggregator.basic_printer.output_file, copy_header=False,
+                        header_lines=aggregator.basic_printer.header_lines)
         merge_files(sample.out_corrected_bed, sample.prefix, chr_ids,
-                    aggregator.corrected_bed_printer.output_file, copy_header=False)
+                    aggregator.corrected_bed_printer.output_file, copy_header=False,
+                    header_lines=aggregator.corrected_bed_printer.header_lines)
 
         for counter in aggregator.global_counter.counters:
             unaligned = self.alignment_stat_counter.stats_dict[AlignmentType.unaligned]
@@ -836,8 +839,9 @@ class DatasetProcessor:
             counter.convert_counts_to_tpm(self.args.normalization_method)
 
     def merge_transcript_models(self, label, aggregator, chr_ids, gff_printer):
-        merge_files(gff_printer.model_fname, label, chr_ids, gff_printer.out_gff, copy_header=False)
-        merge_files(gff_printer.r2t_fname, label, chr_ids, gff_printer.out_r2t, copy_header=False)
+        # the per-chromosome GTF and read-to-model files are written without a header (GFFPrinter, header="")
+        merge_files(gff_printer.model_fname, label, chr_ids, gff_printer.out_gff, copy_header=False, header_lines=0)
+        merge_files(gff_printer.r2t_fname, label, chr_ids, gff_printer.out_r2t, copy_header=False, header_lines=0)
         for counter in aggregator.transcript_model_global_counter.counters:
             unaligned = self.alignment_stat_counter.stats_dict[AlignmentType.unaligned]
             merge_counts(counter, label, chr_ids, unaligned)
